@@ -132,7 +132,12 @@ func comparatorsIn(c *Ctx, prefixes ...string) []comparator {
 			}
 			return nil, nil
 		}
-		if sig, ok := fi.Obj.Type().(*types.Signature); ok && isComparatorSig(sig) && fi.Decl.Recv == nil {
+		isIndexLess := func(sig *types.Signature) bool {
+			// sort.Interface's Less(i, j int): compares positions, not keys
+			b, ok := sig.Params().At(0).Type().Underlying().(*types.Basic)
+			return ok && b.Kind() == types.Int
+		}
+		if sig, ok := fi.Obj.Type().(*types.Signature); ok && isComparatorSig(sig) && (fi.Decl.Recv == nil || !isIndexLess(sig)) {
 			a, b := params(fi.Decl.Type)
 			out = append(out, comparator{fi.Name, fi.Decl.Pos(), fi.Decl.Body, fi.Decl, a, b, info, fi.Pkg})
 		}
@@ -555,23 +560,71 @@ func c13Reverse(c *Ctx, r *Report) {
 					ps = append(ps, info.Defs[id])
 				}
 			}
-			if len(ps) != 2 || len(fl.Body.List) != 1 {
+			if len(ps) != 2 {
 				continue
 			}
-			rs, isRet := fl.Body.List[0].(*ast.ReturnStmt)
-			if !isRet || len(rs.Results) != 1 {
-				continue
+			isCall := func(e ast.Expr, x, y types.Object) bool {
+				ce, isC := ast.Unparen(e).(*ast.CallExpr)
+				return isC && identObj(info, ce.Fun) == sorterParam && len(ce.Args) == 2 && identObj(info, ce.Args[0]) == x && identObj(info, ce.Args[1]) == y
 			}
-			e := ast.Unparen(rs.Results[0])
-			// accepted: !sorter(a, b)   or   sorter(b, a)
-			if ue, isNot := e.(*ast.UnaryExpr); isNot && ue.Op == token.NOT {
-				if ce, isCall := ast.Unparen(ue.X).(*ast.CallExpr); isCall && identObj(info, ce.Fun) == sorterParam && len(ce.Args) == 2 &&
-					identObj(info, ce.Args[0]) == ps[0] && identObj(info, ce.Args[1]) == ps[1] {
-					ok = true
+			// locals holding the comparator's answer for (a, b)
+			answer := map[types.Object]bool{}
+			ast.Inspect(fl.Body, func(x ast.Node) bool {
+				if as, isAs := x.(*ast.AssignStmt); isAs && len(as.Lhs) == 1 && len(as.Rhs) == 1 && isCall(as.Rhs[0], ps[0], ps[1]) {
+					if o := identObj(info, as.Lhs[0]); o != nil {
+						answer[o] = true
+					}
 				}
+				return true
+			})
+			isAnswer := func(e ast.Expr) bool {
+				return isCall(e, ps[0], ps[1]) || answer[identObj(info, e)]
 			}
-			if ce, isCall := e.(*ast.CallExpr); isCall && identObj(info, ce.Fun) == sorterParam && len(ce.Args) == 2 &&
-				identObj(info, ce.Args[0]) == ps[1] && identObj(info, ce.Args[1]) == ps[0] {
+			fg := NewFGraph(fl.Body, info)
+			paths, good := 0, true
+			enumPaths(fg, fg.Entry, func(id int) bool { return id == fg.Exit }, func(nodes []int, edges []FEdge) {
+				paths++
+				assumed := 0
+				for _, e := range edges {
+					if e.Cond == nil || e.Tag != nil {
+						continue
+					}
+					for _, at := range atomise(Fact{e.Cond, nil, e.Truth}) {
+						if isAnswer(at.Cond) {
+							if at.Truth {
+								assumed = 1
+							} else {
+								assumed = -1
+							}
+						}
+					}
+				}
+				var rs *ast.ReturnStmt
+				for i := len(nodes) - 1; i >= 0 && rs == nil; i-- {
+					rs, _ = fg.Nodes[nodes[i]].N.(*ast.ReturnStmt)
+				}
+				if rs == nil || len(rs.Results) != 1 {
+					good = false
+					return
+				}
+				e := ast.Unparen(rs.Results[0])
+				switch {
+				case isCall(e, ps[1], ps[0]):
+					// argument swap
+				default:
+					if ue, isNot := e.(*ast.UnaryExpr); isNot && ue.Op == token.NOT && isAnswer(ue.X) {
+						return
+					}
+					if tv, has := info.Types[e]; has && tv.Value != nil && assumed != 0 {
+						ret := tv.Value.String() == "true"
+						if ret == (assumed < 0) {
+							return
+						}
+					}
+					good = false
+				}
+			})
+			if paths > 0 && good {
 				ok = true
 			}
 		}
@@ -581,19 +634,35 @@ func c13Reverse(c *Ctx, r *Report) {
 	if fi := c.MustFunc(r, rule, sortingPkg, "ValueSorterEx"); fi != nil {
 		info := fi.Pkg.TypesInfo
 		okVal, okFallback := false, false
+		// the comparator may be a literal of the function or a method value it returns (valueThenName{..}.less)
+		bodies := []ast.Node{fi.Decl.Body}
 		ast.Inspect(fi.Decl.Body, func(n ast.Node) bool {
-			switch t := n.(type) {
-			case *ast.BinaryExpr:
-				if (t.Op == token.LSS || t.Op == token.GTR) && strings.HasSuffix(exprStr(t.X), ".Value") && strings.HasSuffix(exprStr(t.Y), ".Value") {
-					okVal = true
-				}
-			case *ast.CallExpr:
-				if len(t.Args) == 2 && strings.HasSuffix(exprStr(t.Args[0]), ".Name") && strings.HasSuffix(exprStr(t.Args[1]), ".Name") {
-					okFallback = true
+			if se, ok := n.(*ast.SelectorExpr); ok {
+				if sel, isSel := info.Selections[se]; isSel && (sel.Kind() == types.MethodVal || sel.Kind() == types.MethodExpr) {
+					if f, isF := sel.Obj().(*types.Func); isF && c.IsRarePkg(f.Pkg()) {
+						if mfi := funcDeclOf(c, f); mfi != nil && mfi.Decl.Body != nil {
+							bodies = append(bodies, mfi.Decl.Body)
+						}
+					}
 				}
 			}
 			return true
 		})
+		for _, body := range bodies {
+			ast.Inspect(body, func(n ast.Node) bool {
+				switch t := n.(type) {
+				case *ast.BinaryExpr:
+					if (t.Op == token.LSS || t.Op == token.GTR) && strings.HasSuffix(exprStr(t.X), ".Value") && strings.HasSuffix(exprStr(t.Y), ".Value") {
+						okVal = true
+					}
+				case *ast.CallExpr:
+					if len(t.Args) == 2 && strings.HasSuffix(exprStr(t.Args[0]), ".Name") && strings.HasSuffix(exprStr(t.Args[1]), ".Name") {
+						okFallback = true
+					}
+				}
+				return true
+			})
+		}
 		_ = info
 		r.Check(okVal && okFallback, rule, fi.Name, "value then name", c.Pos(fi.Decl.Pos()), "shape: compares values and falls back to the name comparator on ties", "the value sorter no longer compares values with a name fall-back")
 	}
